@@ -199,6 +199,13 @@ def main():
                     if p.returncode == 1 and nv:
                         detected = True
                         break
+                if not detected and "C17" not in rec["checks"] and any(v["rc"] == 2 for v in rec["checks"].values()):
+                    # the checks were inconclusive because tealer raised: that is C17's subject
+                    env = dict(os.environ, VT_REPO=wt, VT_SCALE=scale, PYTHONPATH=ROOT, VT_PROBES="0")
+                    p = run(["/venv/bin/python", "-m", "vt.run", "C17", "--tier", "quick"], cwd=ROOT, env=env)
+                    nv = sum(1 for l in p.stdout.splitlines() if l.startswith("VIOLATION"))
+                    rec["checks"]["C17"] = {"rc": p.returncode, "unlisted": nv}
+                    detected = p.returncode == 1 and nv > 0
                 rec["detected"] = detected
                 if not detected and tests:
                     t = run(["/venv/bin/python", "-m", "pytest", "-q", "-p", "no:cacheprovider", "--timeout=900", "-n", "12", "-x"],
